@@ -1,6 +1,10 @@
 package streamreader
 
-import "bytes"
+import (
+	"bytes"
+	"errors"
+	"io"
+)
 
 //go:generate mockgen -source reader.go -destination mocks/mocks.go -typed true
 
@@ -15,6 +19,8 @@ type Stream[T Request] interface {
 type reader[T Request] struct {
 	stream Stream[T]
 	buf    bytes.Buffer
+	// err is the error that ended the stream (io.EOF for a regular end).
+	err error
 }
 
 func New[T Request](stream Stream[T]) *reader[T] {
@@ -24,13 +30,20 @@ func New[T Request](stream Stream[T]) *reader[T] {
 }
 
 func (r *reader[T]) Read(p []byte) (int, error) {
-	for len(p) > r.buf.Len() {
+	for r.err == nil && len(p) > r.buf.Len() {
 		resp, err := r.stream.Recv()
 		if err != nil {
+			r.err = err
 			break
 		}
 
 		r.buf.Write(resp.GetChunk())
+	}
+
+	// Only io.EOF is the end of the content: a cancelled or broken stream must
+	// not look like a complete one.
+	if r.buf.Len() == 0 && r.err != nil && !errors.Is(r.err, io.EOF) {
+		return 0, r.err
 	}
 
 	return r.buf.Read(p)
